@@ -179,6 +179,22 @@ def build(run):
         yield "variable wraps grad(grad(f*g))[0,1]", lambda: _d(lambda s_: s_ ** 3, variable(grad(grad(f * g))[0, 1]))
         yield "variable wraps a diff", lambda: (lambda s0: _d(lambda s_: s_ * s_ * s0, variable(diff(s0 ** 3 * g, s0))))(variable(f))
 
+        # a variable that directly labels another variable: two different variables (diff w.r.t. the outer one holds the inner one fixed)
+        def direct(kind):
+            v_ = variable(f)
+            w_ = variable(v_)
+            e_ = w_ ** 2 * v_ + sin(w_) + v_ ** 3
+            if kind == "outer":
+                return diff(e_, w_)
+            if kind == "inner":
+                return diff(e_, v_)
+            a_ = variable(u)
+            b_ = variable(a_)
+            return diff(dot(b_, a_) * b_[0], b_)[j] * u[j]
+        yield "variable of a variable, diff w.r.t. the outer one", lambda: direct("outer")
+        yield "variable of a variable, diff w.r.t. the inner one", lambda: direct("inner")
+        yield "vector variable of a variable", lambda: direct("vector")
+
     def _d(F, v):
         return diff(F(v), v)
 
@@ -190,6 +206,35 @@ def build(run):
         t = variable(s * s + g)
         e = t ** 3 * s
         return diff(e, s if inner_ else t)
+    # ---- contract of ufl.variable(e): a NEW Variable node wrapping e under a label that occurs nowhere in e (so that diff w.r.t. it
+    # treats everything inside e, including variables, as held fixed unless reached through the new label)
+    def variable_contract():
+        import ufl.classes as C_
+        from ufl.corealg.traversal import unique_pre_traversal
+        v1 = variable(f)
+        cases = [("coefficient", f), ("expression", f * g + sin(f)), ("vector", u), ("a variable", v1), ("a variable of a variable", variable(v1)),
+                 ("expression of a variable", v1 * v1 + g), ("literal", ufl.as_ufl(2.5))]
+        n = 0
+        for nm, e in cases:
+            r1, r2 = variable(e), variable(e)
+            for r in (r1, r2):
+                n += 1
+                if type(r) is not C_.Variable:
+                    return violated(f"variable({nm}) returned a {type(r).__name__}, not a Variable", reproduced=True, replay={"operand": str(e)})
+                if r is e:
+                    return violated(f"variable({nm}) returned its operand: the new variable is not distinct from what it labels "
+                                    f"(diff w.r.t. it would not hold the operand's own variables fixed)", reproduced=True, replay={"operand": str(e)})
+                if not (r.ufl_operands[0] == e) or r.ufl_shape != e.ufl_shape:
+                    return violated(f"variable({nm}) wraps {r.ufl_operands[0]} instead of its operand", reproduced=True, replay={"operand": str(e)})
+                inner_labels = {x for x in unique_pre_traversal(e) if isinstance(x, C_.Label)}
+                if r.ufl_operands[1] in inner_labels:
+                    return violated(f"variable({nm}) reuses a label that occurs inside its operand", reproduced=True, replay={"operand": str(e)})
+            if r1.ufl_operands[1] == r2.ufl_operands[1]:
+                return violated(f"two calls of variable({nm}) give the same label", reproduced=True, replay={"operand": str(e)})
+        return proved("exec", vcs=n, sample=f"{len(cases)} operand classes: a new Variable node, wrapping the operand, under a fresh label")
+    run.function(variable)
+    run.add("variable()/new-node-fresh-label", variable_contract, kind="values")
+
     for nm_, mk_ in mk_cases():
         pipe(nm_, mk_)
 
